@@ -18,6 +18,24 @@
 //   alias <path>                   remember the node at <path> (cpp: GetItem, api: config_get_item into a 2nd RimeConfig) -> ok
 //   aliasdump                      canonical dump of the remembered node                                          -> tree=..
 //   raw <treedump>                 (cpp only) build the tree directly with ConfigMap::Set / ConfigList::Append    -> ok
+//   get <path> is                  Config::IsNull/IsValue/IsList/IsMap as four digits                             -> ret=1 val=NVLM
+//   iter <path> list|map           config_begin_list|map, config_next until it returns False, config_end          -> ret=0 | ret=1 n=<k> items=<keyhex>:<pathhex>,…
+//   sign <signerhex>               config_update_signature (modified_time / rime_version blanked to T / V)        -> ret=0|1
+//   setitem <dst> <src>            SetItem(dst, GetItem(src)) / config_get_item + config_set_item                 -> ret=0|1
+//   setraw <path> <treedump>       SetItem(path, the tree built directly)                                         -> ret=0|1
+//   ref <steps> <action> [args]    ConfigItemRef: (*config)[k][i]… then tos|toi|tob|is|size|has <khex>|assign s <hex>|assign i <n>|
+//                                  assign b 0|1|assign null|clear|append s <hex>|aslist|asmap   (steps: `-` or k<hex>,i<n>,…)  -> val=… | ok
+//   node <path> <method> [args]    the container at <path> (GetItem) used directly: valueat <i> | mapvalue <khex> | haskey <khex> |
+//                                  resize <n> | clearlist | clearmap | insert <i> s <hex> | setat <i> s <hex> | appendl s <hex>
+//                                  -> val=<hex>|null|0|1 | ok | no-list | no-map
+//   customizer <twice01> <srcdump> <n> (<pathhex> <dump>)*n   the older patching route: source file, `<name>.custom.yaml` = {patch: {path: item…}},
+//                                  no user copy yet; Customizer::UpdateConfigFile twice; the user copy loaded plainly
+//                                  -> cz ret=. again=. checksum=<text> tree=<dump>|none
+//   uopen <idhex> 0|1              (cpp) the config <id> of the user-config component (ConfigLoader + UserConfigResourceProvider,
+//                                  auto_save as given); later ops go to it; `new` drops it (auto-save happens there)  -> ok tree=..
+//   save | modified                Config::Save() / modified()                                                    -> save ret=. | modified=.
+//   ufile <idhex> | urm <idhex>    the file behind <id> loaded plainly / removed                                  -> file none|tree=.. | ok
+//   loadfile missing|bad|empty     LoadFromFile of a file that is not there / not YAML / empty                    -> load ok=. tree=..
 // paths and values are lower-case hex of the bytes ("-" = empty).  api-mode arguments must not contain NUL.
 // usage: c18_harness <ops-file> <out-file>
 #include "hcommon.h"
@@ -26,6 +44,13 @@
 #include <rime/config.h>
 #include <rime/config/config_data.h>
 #include <rime/config/config_types.h>
+#include <rime/service.h>
+#include <rime/deployer.h>
+#include <rime/config/config_component.h>
+#include <rime/lever/customizer.h>
+#include <rime/algo/utilities.h>
+#include <filesystem>
+#include <functional>
 
 using namespace vh;
 using namespace rime;
@@ -157,6 +182,7 @@ int main(int argc, char** argv) {
   FILE* out = fopen(argv[2], "w");
   if (!in || !out) { fprintf(stderr, "cannot open files\n"); return 2; }
   RimeApi* api = rime_get_api();
+  the<Config::Component> ucomp;
   the<Config> cpp(new Config);
   RimeConfig ac = {nullptr};
   RimeConfig alias_api = {nullptr};
@@ -223,7 +249,7 @@ int main(int argc, char** argv) {
         r = use_api ? api->config_clear(&ac, path.c_str()) : cpp->SetItem(path, nullptr);
       }
       if (ok) res = std::string("ret=") + (r ? "1" : "0");
-    } else if (p.size() == 3 && p[0] == "get" && hexok(p[1])) {
+    } else if (p.size() == 3 && p[0] == "get" && hexok(p[1]) && p[2] != "is") {
       std::string path = unhex(p[1]);
       const std::string& ty = p[2];
       if (use_api && hasnul(path)) {
@@ -278,6 +304,187 @@ int main(int argc, char** argv) {
                         : it->type() == ConfigItem::kList ? "list" : "map";
         res = std::string("ret=1 val=") + t;
       }
+    } else if (p.size() == 3 && p[0] == "get" && hexok(p[1]) && p[2] == "is") {
+      std::string path = unhex(p[1]);
+      Config* k = cfg();
+      res = std::string("ret=1 val=") + (k->IsNull(path) ? "1" : "0") + (k->IsValue(path) ? "1" : "0") + (k->IsList(path) ? "1" : "0") +
+            (k->IsMap(path) ? "1" : "0");
+    } else if (p.size() == 3 && p[0] == "iter" && hexok(p[1]) && (p[2] == "list" || p[2] == "map")) {
+      std::string path = unhex(p[1]);
+      if (!hasnul(path)) {
+        RimeConfig rc = {cfg()};
+        RimeConfigIterator it;
+        memset(&it, 0xAB, sizeof it);   // Begin must initialise every field it later relies on
+        Bool b = p[2] == "list" ? api->config_begin_list(&it, &rc, path.c_str()) : api->config_begin_map(&it, &rc, path.c_str());
+        if (!b) {
+          res = "ret=0";
+          if (it.list || it.map) res += " iterator-not-cleared";
+        } else {
+          std::string items;
+          int n = 0;
+          while (api->config_next(&it)) {
+            if (n++) items += ",";
+            items += hex(std::string(it.key)) + ":" + hex(std::string(it.path));
+            if (it.index != n - 1) items += "!index";
+            if (n > 100000) break;
+          }
+          api->config_end(&it);
+          if (it.list || it.map || it.key || it.path) items += "!end-not-cleared";
+          res = "ret=1 n=" + std::to_string(n) + " items=" + (n ? items : std::string("-"));
+        }
+      }
+    } else if (p.size() == 2 && p[0] == "sign" && hexok(p[1])) {
+      std::string signer = unhex(p[1]);
+      if (!hasnul(signer)) {
+        Deployer& d = Service::instance().deployer();
+        d.distribution_code_name = "verif";
+        d.distribution_version = "1";
+        RimeConfig rc = {cfg()};
+        Bool b = api->config_update_signature(&rc, signer.c_str());
+        if (cfg()->GetValue("signature/modified_time")) cfg()->SetString("signature/modified_time", "T");
+        if (cfg()->GetValue("signature/rime_version")) cfg()->SetString("signature/rime_version", "V");
+        res = std::string("ret=") + (b ? "1" : "0");
+      }
+    } else if (p.size() == 3 && p[0] == "setitem" && hexok(p[1]) && hexok(p[2])) {
+      std::string dst = unhex(p[1]), src = unhex(p[2]);
+      if (use_api) {
+        if (!hasnul(dst) && !hasnul(src)) {
+          RimeConfig v = {nullptr};
+          bool g = api->config_get_item(&ac, src.c_str(), &v);
+          bool r = g && api->config_set_item(&ac, dst.c_str(), &v);
+          if (v.ptr) api->config_close(&v);
+          res = std::string("ret=") + (r ? "1" : "0");
+        }
+      } else {
+        bool r = cpp->SetItem(dst, cpp->GetItem(src));
+        res = std::string("ret=") + (r ? "1" : "0");
+      }
+    } else if (p.size() == 3 && p[0] == "setraw" && hexok(p[1])) {
+      size_t i = 0;
+      an<ConfigItem> t;
+      std::string path = unhex(p[1]);
+      if (undump(p[2], &i, &t) && i == p[2].size()) {
+        bool r = cfg()->SetItem(path, t);
+        res = std::string("ret=") + (r ? "1" : "0");
+      }
+    } else if (p.size() >= 3 && p[0] == "ref") {
+      // navigate with operator[]; the chain of entry references is built recursively so that each lives while its child is used
+      std::vector<std::string> steps = p[1] == "-" ? std::vector<std::string>() : split(p[1], ',');
+      bool okst = true;
+      for (auto& s_ : steps) okst = okst && s_.size() >= 2 && (s_[0] == 'k' ? hexok(s_.substr(1)) : s_[0] == 'i');
+      std::function<void(ConfigItemRef&, size_t)> go = [&](ConfigItemRef& r, size_t k) {
+        if (k < steps.size()) {
+          if (steps[k][0] == 'k') { ConfigMapEntryRef e = r[unhex(steps[k].substr(1))]; go(e, k + 1); }
+          else { ConfigListEntryRef e = r[(size_t)strtoull(steps[k].c_str() + 1, nullptr, 10)]; go(e, k + 1); }
+          return;
+        }
+        const std::string& a = p[2];
+        if (a == "tos" && p.size() == 3) res = "val=" + hex(r.ToString());
+        else if (a == "toi" && p.size() == 3) res = "val=" + std::to_string(r.ToInt());
+        else if (a == "tob" && p.size() == 3) res = std::string("val=") + (r.ToBool() ? "1" : "0");
+        else if (a == "is" && p.size() == 3)
+          res = std::string("val=") + (r.IsNull() ? "1" : "0") + (r.IsValue() ? "1" : "0") + (r.IsList() ? "1" : "0") + (r.IsMap() ? "1" : "0");
+        else if (a == "size" && p.size() == 3) res = "val=" + std::to_string(r.size());
+        else if (a == "has" && p.size() == 4 && hexok(p[3])) res = std::string("val=") + (r.HasKey(unhex(p[3])) ? "1" : "0");
+        else if (a == "assign" && p.size() == 5 && p[3] == "s" && hexok(p[4])) { r = unhex(p[4]); res = "ok"; }
+        else if (a == "assign" && p.size() == 5 && p[3] == "i") { int v; if (i32(p[4], &v)) { r = v; res = "ok"; } }
+        else if (a == "assign" && p.size() == 5 && p[3] == "b") { r = (p[4] == "1"); res = "ok"; }
+        else if (a == "assign" && p.size() == 4 && p[3] == "null") { r = an<ConfigItem>(); res = "ok"; }
+        else if (a == "clear" && p.size() == 3) { r.Clear(); res = "ok"; }
+        else if (a == "append" && p.size() == 5 && p[3] == "s" && hexok(p[4])) { res = r.Append(New<ConfigValue>(unhex(p[4]))) ? "ok" : "fail"; }
+        else if (a == "aslist" && p.size() == 3) { r.AsList(); res = "ok"; }
+        else if (a == "asmap" && p.size() == 3) { r.AsMap(); res = "ok"; }
+      };
+      if (okst) go(*cfg(), 0);
+    } else if (p.size() >= 3 && p[0] == "node" && hexok(p[1])) {
+      an<ConfigItem> it = cfg()->GetItem(unhex(p[1]));
+      auto l = As<ConfigList>(it);
+      auto m = As<ConfigMap>(it);
+      const std::string& a = p[2];
+      auto num = [&](const std::string& t) { return (size_t)strtoull(t.c_str(), nullptr, 10); };
+      bool is_list_op = a == "valueat" || a == "resize" || a == "clearlist" || a == "insert" || a == "setat" || a == "appendl";
+      if (is_list_op && !l) res = "no-list";
+      else if (!is_list_op && !m) res = "no-map";
+      else if (a == "valueat" && p.size() == 4) { auto v = l->GetValueAt(num(p[3])); res = v ? "val=" + hex(v->str()) : std::string("val=null"); }
+      else if (a == "mapvalue" && p.size() == 4 && hexok(p[3])) { auto v = m->GetValue(unhex(p[3])); res = v ? "val=" + hex(v->str()) : std::string("val=null"); }
+      else if (a == "haskey" && p.size() == 4 && hexok(p[3])) res = std::string("val=") + (m->HasKey(unhex(p[3])) ? "1" : "0");
+      else if (a == "resize" && p.size() == 4) { res = l->Resize(num(p[3])) ? "ok" : "fail"; }
+      else if (a == "clearlist" && p.size() == 3) { res = l->Clear() ? "ok" : "fail"; }
+      else if (a == "clearmap" && p.size() == 3) { res = m->Clear() ? "ok" : "fail"; }
+      else if (a == "insert" && p.size() == 6 && p[4] == "s" && hexok(p[5])) { res = l->Insert(num(p[3]), New<ConfigValue>(unhex(p[5]))) ? "ok" : "fail"; }
+      else if (a == "setat" && p.size() == 6 && p[4] == "s" && hexok(p[5])) { res = l->SetAt(num(p[3]), New<ConfigValue>(unhex(p[5]))) ? "ok" : "fail"; }
+      else if (a == "appendl" && p.size() == 5 && p[3] == "s" && hexok(p[4])) { res = l->Append(New<ConfigValue>(unhex(p[4]))) ? "ok" : "fail"; }
+    } else if (p.size() >= 3 && p[0] == "customizer") {
+      namespace sfs = std::filesystem;
+      sfs::path dir = std::string(argv[2]) + ".cz";
+      sfs::remove_all(dir);
+      sfs::create_directories(dir / "shared");
+      sfs::create_directories(dir / "user");
+      size_t i = 0;
+      an<ConfigItem> src;
+      bool twice = p[1] == "1";
+      p.erase(p.begin() + 1);
+      size_t n = p.size() >= 3 ? strtoull(p[2].c_str(), nullptr, 10) : 0;
+      bool ok = p.size() >= 3 && undump(p[1], &i, &src) && i == p[1].size() && p.size() == 3 + 2 * n;
+      auto patch = New<ConfigMap>();
+      for (size_t k = 0; ok && k < n; ++k) {
+        an<ConfigItem> v;
+        size_t j = 0;
+        ok = hexok(p[3 + 2 * k]) && undump(p[4 + 2 * k], &j, &v) && j == p[4 + 2 * k].size();
+        if (ok) patch->Set(unhex(p[3 + 2 * k]), v);
+      }
+      if (ok) {
+        Config s0, c0;
+        s0.SetItem("", src);
+        s0.SaveToFile(dir / "shared" / "x.yaml");
+        c0.SetItem("patch", patch);
+        c0.SaveToFile(dir / "user" / "x.custom.yaml");
+        Customizer cz(dir / "shared" / "x.yaml", dir / "user" / "x.yaml", "config_version");
+        bool r1 = cz.UpdateConfigFile();
+        bool r2 = twice ? cz.UpdateConfigFile() : false;
+        std::string sum = std::to_string(Checksum(dir / "user" / "x.custom.yaml"));
+        Config d0;
+        std::string o = "none";
+        if (sfs::exists(dir / "user" / "x.yaml") && d0.LoadFromFile(dir / "user" / "x.yaml")) { o.clear(); dump(d0.GetItem(""), &o); }
+        res = std::string("cz ret=") + (r1 ? "1" : "0") + " again=" + (r2 ? "1" : "0") + " checksum=" + sum + " tree=" + o;
+      }
+      sfs::remove_all(dir);
+    } else if (p.size() == 3 && p[0] == "uopen" && hexok(p[1]) && !use_api) {
+      std::filesystem::path ud = std::string(argv[2]) + ".ud";
+      std::filesystem::create_directories(ud);
+      Service::instance().deployer().user_data_dir = ud;
+      bool as = p[2] == "1";
+      cpp.reset();
+      ucomp.reset(new ConfigComponent<ConfigLoader, UserConfigResourceProvider>([&](ConfigLoader* l) { l->set_auto_save(as); }));
+      cpp.reset(ucomp->Create(unhex(p[1])));
+      std::string o;
+      dump(cpp->GetItem(""), &o);
+      res = "ok tree=" + o;
+    } else if (p.size() == 1 && p[0] == "save") {
+      res = std::string("save ret=") + (cfg()->Save() ? "1" : "0");
+    } else if (p.size() == 1 && p[0] == "modified") {
+      res = std::string("modified=") + (cfg()->modified() ? "1" : "0");
+    } else if (p.size() == 2 && (p[0] == "ufile" || p[0] == "urm") && hexok(p[1])) {
+      std::filesystem::path f = std::filesystem::path(std::string(argv[2]) + ".ud") / (unhex(p[1]) + ".yaml");
+      if (p[0] == "urm") { std::error_code ec; std::filesystem::remove(f, ec); res = "ok"; }
+      else if (!std::filesystem::exists(f)) res = "file none";
+      else {
+        Config fresh;
+        std::string o;
+        if (fresh.LoadFromFile(f)) { dump(fresh.GetItem(""), &o); res = "file tree=" + o; } else res = "file unloadable";
+      }
+    } else if (p.size() == 2 && p[0] == "loadfile" && (p[1] == "missing" || p[1] == "bad" || p[1] == "empty")) {
+      std::string f = std::string(argv[2]) + ".lf.yaml";
+      std::remove(f.c_str());
+      if (p[1] != "missing") {
+        std::ofstream o(f, std::ios::binary);
+        if (p[1] == "bad") o << "a: [1, 2\nb: {";
+      }
+      bool r = cfg()->LoadFromFile(rime::path(f));
+      std::string o;
+      dump(cfg()->GetItem(""), &o);
+      res = std::string("load ok=") + (r ? "1" : "0") + " tree=" + o;
+      std::remove(f.c_str());
     } else if (p.size() == 1 && p[0] == "dump") {
       std::string o;
       dump(cfg()->GetItem(""), &o);
